@@ -77,6 +77,47 @@ type c07env struct {
 	hits  int
 	last  *upRec
 	reply *upReply
+	// handlers of the front listener and of the upstream that are running right now; a case (and every new attempt
+	// of a case) starts only when there is none, so that nothing left over from an abandoned exchange is counted
+	// in its window
+	busy int
+	idle *sync.Cond
+}
+
+func (e *c07env) enter() {
+	e.mu.Lock()
+	e.busy++
+	e.mu.Unlock()
+}
+
+func (e *c07env) leave() {
+	e.mu.Lock()
+	e.busy--
+	if e.busy == 0 {
+		e.idle.Broadcast()
+	}
+	e.mu.Unlock()
+}
+
+// quiesce waits (on the handlers' own exit, not on a timer) until neither listener is serving anything.
+func (e *c07env) quiesce() error {
+	expired := false
+	t := time.AfterFunc(30*time.Second, func() {
+		e.mu.Lock()
+		expired = true
+		e.idle.Broadcast()
+		e.mu.Unlock()
+	})
+	defer t.Stop()
+	e.mu.Lock()
+	defer e.mu.Unlock()
+	for e.busy > 0 && !expired {
+		e.idle.Wait()
+	}
+	if e.busy > 0 {
+		return errors.New("a handler of an earlier exchange is still running")
+	}
+	return nil
 }
 
 var (
@@ -125,7 +166,10 @@ func hdrList(h http.Header, host string) []kv {
 func getEnv() *c07env {
 	envOnce.Do(func() {
 		e := &c07env{}
+		e.idle = sync.NewCond(&e.mu)
 		e.up = httptest.NewServer(http.HandlerFunc(func(w http.ResponseWriter, r *http.Request) {
+			e.enter()
+			defer e.leave()
 			body, _ := io.ReadAll(r.Body)
 			rec := &upRec{
 				Method:  r.Method,
@@ -200,6 +244,8 @@ func getEnv() *c07env {
 		e.upURL, _ = url.Parse(e.up.URL)
 		e.upAddr = e.upURL.Host
 		e.front = httptest.NewServer(http.HandlerFunc(func(w http.ResponseWriter, r *http.Request) {
+			e.enter()
+			defer e.leave()
 			e.mu.Lock()
 			h := e.cur
 			e.mu.Unlock()
@@ -284,7 +330,7 @@ func (e *c07env) installCfg(cfg config.Proxy, pc pcfg, routes string, rep *upRep
 		return fmt.Errorf("route table: %v", err)
 	}
 	p := &proxy.HTTPProxy{
-		Config:      cfg,
+		Config:            cfg,
 		Transport:         upTransport,
 		InsecureTransport: insecureTransport,
 		AuthSchemes:       schemes,
@@ -293,6 +339,9 @@ func (e *c07env) installCfg(cfg config.Proxy, pc pcfg, routes string, rep *upRep
 		},
 	}
 	pc.apply(p)
+	if err := e.quiesce(); err != nil {
+		return err
+	}
 	e.mu.Lock()
 	e.cur = p
 	e.hits = 0
@@ -300,6 +349,35 @@ func (e *c07env) installCfg(cfg config.Proxy, pc pcfg, routes string, rep *upRep
 	e.reply = rep
 	e.mu.Unlock()
 	return nil
+}
+
+// exchange runs one case: install, one round trip, read the recorder. A round trip that breaks off is tried again
+// (the websocket handler gives the upstream one second for the handshake, which a loaded machine can miss; a large
+// transfer is occasionally cut off when many harness processes run side by side), and so is a measurement that
+// cannot be the answer to ONE client request whatever the code does: the upstream counted more than one request
+// (Go's transport re-sends a request on a fresh connection when a pooled one has died — sockets get scarce on a
+// loaded machine). Only what persists over three measurements is reported and judged; `attempts` says how many
+// were needed.
+func (e *c07env) exchange(cfg config.Proxy, pc pcfg, routes string, rep *upReply, schemes map[string]auth.AuthScheme,
+	method string, raw []byte, keepBody bool) (resp *clientResp, hits int, up *upRec, attempts int, err error) {
+	for attempts = 1; attempts <= 3; attempts++ {
+		if err = e.installCfg(cfg, pc, routes, rep, schemes); err != nil {
+			return nil, 0, nil, attempts, err
+		}
+		if resp, err = e.roundTrip(method, raw, keepBody); err != nil {
+			continue
+		}
+		if err = e.quiesce(); err != nil { // the recorder is read when both sides are done with the exchange
+			return nil, 0, nil, attempts, err
+		}
+		if hits, up = e.seen(); hits <= 1 {
+			break
+		}
+	}
+	if attempts > 3 {
+		attempts = 3
+	}
+	return resp, hits, up, attempts, err
 }
 
 func (e *c07env) seen() (int, *upRec) {
